@@ -12,7 +12,7 @@ structure St where
 def b (v : Bool) : String := if v then "1" else "0"
 
 def dump (e : Ep) : String :=
-  s!"st={e.st} pil={b e.pil} pfwd={b e.pfwd} pifwd={b e.pifwd} sz={b e.sendZero} uil={b e.uil} ufwd={b e.ufwd} uifwd={b e.uifwd}"
+  s!"st={e.st} pil={b e.pil} pfwd={b e.pfwd} pifwd={b e.pifwd} sz={b e.sendZero} uil={b e.uil} ufwd={b e.ufwd} uifwd={b e.uifwd} t1i={b e.t1i} t1c={b e.t1c}"
 
 def extStr (types : List Nat) (zc : Option Nat) : String :=
   let e := if types.isEmpty then "none" else ",".intercalate (types.map toString)
